@@ -60,10 +60,12 @@ def check_case(ctx, case):
     n = len(cats)
     with tempfile.TemporaryDirectory() as d:
         path = os.path.join(d, "forecast.csv")
-        files.write_catalog_forecast(path, cats, case["enc"], header=case["header"], frac=case.get("timefmt", "auto"))
+        files.write_catalog_forecast(path, cats, case["enc"], header=case["header"], frac=case.get("timefmt", "auto"),
+                                     eol=case.get("eol", "\r\n"), final_newline=case.get("final_newline", True))
         if case.get("swap") is not None:
             # negative case: swap the row groups of two different catalog ids so that ids decrease somewhere
-            lines = open(path).read().splitlines(keepends=True)
+            eol = case.get("eol", "\r\n")
+            lines = [l + eol for l in open(path, newline="").read().split(eol) if l != ""]   # every row keeps its own terminator when moved
             head = lines[:1] if case["header"] else []
             body = lines[1:] if case["header"] else lines
             import csv, io
@@ -74,7 +76,8 @@ def check_case(ctx, case):
                 return
             a = case["swap"] % (len(groups) - 1)
             groups[a], groups[a + 1] = groups[a + 1], groups[a]
-            open(path, "w").write("".join(head + [body[i] for g in groups for i in g]))
+            with open(path, "w", newline="") as f:
+                f.write("".join(head + [body[i] for g in groups for i in g]))
             for name, f in loaders(path):
                 o = call(f)
                 if o.ok:
@@ -155,7 +158,7 @@ def make_long_cases(max_n):
             else:
                 cats.append(s)
         return {"cats": cats, "enc": enc, "header": draw(st.booleans()), "frac": draw(st.booleans()),
-                "timefmt": draw(st.sampled_from(["auto", "us", "ms"])),
+                "timefmt": draw(st.sampled_from(["auto", "us", "ms"])), "eol": draw(st.sampled_from(["\n", "\r\n"])), "final_newline": draw(st.booleans()),
                 **({"swap": draw(st.integers(0, 50))} if draw(st.integers(0, 5)) == 0 else {})}
     return long_cases()
 
@@ -172,6 +175,8 @@ def run(ctx):
             continue
         case["frac"] = (i % 3 != 0)
         case["tsalt"] = i
+        case["eol"] = "\n" if i % 2 else "\r\n"
+        case["final_newline"] = bool((i // 2) % 2)
         case["timefmt"] = ("auto", "us", "ms")[i % 3] if case["frac"] else "auto"
         ctx.check(case)
         ctx.record(case, nontrivial(case), "exhaustive")
